@@ -144,7 +144,9 @@ def _drain(ctx, fi, table, what, base_event, check_event):
         `for` over a snapshot of the table's keys;
       * visit: the target of a `for` over a *snapshot* (`list(..)`, `tuple(..)`, comprehension, ...)
         of `t.values()` / `t.items()`; iterating the live dict is not accepted: the treatment
-        (stopper / add_exception callbacks) removes entries from the very table.
+        (stopper / add_exception callbacks) removes entries from the very table;
+      * removal through a generator of the program that pops and yields entries of the table it is
+        given (or of the same field of self) while the table is non-empty: the target of a `for` over it.
     From every source every normal path that continues the loop or leaves shutdown passes the
     treatment of *that* item (value flow from the removed/visited value to the call)."""
     cfg = cfg_of(fi)
@@ -172,6 +174,22 @@ def _drain(ctx, fi, table, what, base_event, check_event):
                     complete = True
         sources.append(({pn}, pn, call, uses, base, complete, "removal"))
     for lp in [n for n in walk_no_nested(fi.node) if isinstance(n, (ast.For, ast.AsyncFor))]:
+        dg = K.draining_iter(ctx.prog, fi, lp.iter, field)
+        if dg is not None:
+            # removal handed out by a draining generator of the program: `for v in drain(t)` is
+            # `while t: v = t.pop(..)` -- the generator takes one entry out per round, looks at the table afresh
+            # in between and ends only when it is empty (all of that decided on the generator's own CFG and value
+            # flow, K.draining_generator); the consumer must not leave the loop early (the generator would stay
+            # suspended with entries in the table).  The value flow continues at the loop target, in the layout
+            # the generator yields the removed entry in.
+            kind, layouts = dg
+            head = cfg.loc1(lp)
+            starts = {d for d, lab in cfg.succ[head] if lab == "T"}
+            uses = []
+            for w, pr in layouts:
+                uses = uses + K.Flow(ctx.prog).from_target(fi, lp, lp.target, wrap=w, proj=pr)
+            sources.append((starts, head, lp, uses, () if kind == "pop" else (1,), not K.loop_leaves_early(lp), "visit"))
+            continue
         EF.filters, EF.snapshot = [], False
         el = EF.elements(lp.iter)
         if len(el) != 1 or el[0] is None:
@@ -652,6 +670,80 @@ def g_shared(ctx):
     c08._e_process_request(ctx)
 
 
+def _cancel_callback_of(ctx, fi, cb, is_task, depth=0):
+    """Does the callable expression `cb` (in fi), called without arguments, do nothing but cancel the task?
+    Callables are normalised: bound method `t.cancel`, `functools.partial(t.cancel)`, `lambda: t.cancel()` (also with
+    the task bound as a default argument), a nested def whose body is that call, through single-assignment locals."""
+    if depth > 3 or cb is None:
+        return False
+    cb = resolve_local(fi.node, cb)
+    if isinstance(cb, ast.Attribute):
+        return cb.attr == "cancel" and is_task(cb.value, {})
+    if isinstance(cb, ast.Call) and K._is_partial(ctx.prog, fi, cb) and len(cb.args) == 1 and not cb.keywords:
+        return _cancel_callback_of(ctx, fi, cb.args[0], is_task, depth + 1)
+
+    def body_cancels(args, body_call, extra_ok=True):
+        a = args
+        if a.vararg or a.kwarg or a.kwonlyargs and len(a.kw_defaults) != len(a.kwonlyargs):
+            return False
+        pos = a.posonlyargs + a.args
+        if len(a.defaults) != len(pos) or any(d is None for d in a.kw_defaults):
+            return False  # a required parameter: not callable the way on_interest_end calls it
+        binds = {x.arg: d for x, d in zip(pos, a.defaults)}
+        binds.update({x.arg: d for x, d in zip(a.kwonlyargs, a.kw_defaults)})
+        c = body_call
+        return isinstance(c, ast.Call) and isinstance(c.func, ast.Attribute) and c.func.attr == "cancel" and not c.keywords \
+            and all(isinstance(x, ast.Constant) for x in c.args) and is_task(c.func.value, binds)
+
+    if isinstance(cb, ast.Lambda):
+        return body_cancels(cb.args, cb.body)
+    if isinstance(cb, ast.Name):
+        g = ctx.prog.funcs.get(fi.qn + ".<locals>." + cb.id)
+        if g is not None and not g.is_async and len(writes_to_name(fi.node, cb.id)) <= 1:
+            body = [st for st in g.node.body if not _only_logs(st)]
+            if len(body) == 1 and isinstance(body[0], (ast.Expr, ast.Return)) and body[0].value is not None:
+                return body_cancels(g.node.args, body[0].value)
+    return False
+
+
+@R.clause("C18.j", "a running server handler can be cancelled: every task run_driving_pipe starts has its cancel() registered for the end of interest in its pipe, on every path")
+def j_render_task_cancellable(ctx):
+    """TokenManager.shutdown cancels the running handlers by calling the stoppers of the incoming requests (C18.b): the
+    stopper ends the interest in the request's pipe, error_to_message forwards that to the pipe the handler renders
+    into (C08.e), and the only thing that stops the rendering task is the callback run_driving_pipe registered there.
+    Necessary condition, decided on run_driving_pipe's CFG: from the creation of a task, the function cannot return
+    normally without having passed `<the pipe parameter>.on_interest_end(<something that cancels that very task>)` --
+    whatever flags, parameters or registries the function has: a task started on a path that skips the registration
+    is a handler that runs on through shutdown."""
+    fi = ctx.prog.func("pipe.run_driving_pipe")
+    ps = params(fi)
+    ctx.need(len(ps) >= 2 and not writes_to_name(fi.node, ps[0]), "run_driving_pipe(pipe, coroutine, ...) expected, the pipe parameter never rebound")
+    ctx.need(not fi.is_async and not any(isinstance(n, (ast.Await, ast.Yield, ast.YieldFrom)) for n in walk_no_nested(fi.node)), "run_driving_pipe is a plain synchronous function")
+    cfg = cfg_of(fi)
+    creations = []
+    for c in calls_in(fi.node):
+        q = _resolved_name(ctx, fi, c) or ""
+        last = (call_name(c) or "").split(".")[-1]
+        if q in ("asyncio.create_task", "asyncio.ensure_future") or last in ("create_task", "ensure_future"):
+            creations.append(c)
+    ctx.floor("tasks started by run_driving_pipe", len(creations), 1)
+    regs = [c for c in calls_in(fi.node) if isinstance(c.func, ast.Attribute) and c.func.attr == "on_interest_end" and K.chain_of(fi.node, c.func.value) == ps[0]]
+    for t in creations:
+        def is_task(e, binds, t=t):
+            if isinstance(e, ast.Name) and e.id in binds:
+                e = binds[e.id]
+            return resolve_local(fi.node, e) is t
+        mine = []
+        for r in regs:
+            cb = r.args[0] if len(r.args) == 1 and not r.keywords else (r.keywords[0].value if len(r.keywords) == 1 and not r.args else None)
+            if _cancel_callback_of(ctx, fi, cb, is_task):
+                mine.append(cfg.loc1(r))
+        tn = cfg.loc1(t)
+        ok = bool(mine) and (tn in mine or cfg.must_pass(tn, mine))
+        ctx.ob("every task run_driving_pipe starts is cancelled when interest in its pipe ends (the way shutdown cancels running handlers), on every path", ok, fi, t,
+               detail=None if ok else ("no on_interest_end callback of the pipe cancels this task" if not mine else "a normal path from the task's creation to the return avoids the registration of its cancel()"))
+
+
 @R.clause("C18.e", "late errors after shutdown are tolerated: dispatch_error returns at once when the tables are retired")
 def e(ctx):
     for short, table in ((MM + "dispatch_error", "_active_exchanges"), (TM + "dispatch_error", "outgoing_requests")):
@@ -816,6 +908,16 @@ R.seed("C18.g", F_TM, "            (pipe, stop) = self.incoming_requests.pop(key
 
 R.seed("C18.h", F_TM, "class TokenManager(interfaces.RequestInterface, interfaces.TokenManager):\n", "class TokenManager(interfaces.RequestInterface, interfaces.TokenManager):\n    outgoing_requests = {}\n    incoming_requests = {}\n", "class-level tables (shared by every context as soon as __init__ stops shadowing them)")
 R.seed("C18.h", F_TM, "        self.outgoing_requests = {}\n", "        self.outgoing_requests = type(self)._shared_outgoing\n", "table shared between all token managers")
+
+# C18.j: the rendering task is reachable by the loss-of-interest path shutdown uses
+F_PIPE = "aiocoap/pipe.py"
+R.seed("C18.j", F_PIPE, "    pipe.on_interest_end(task.cancel)\n", "    if name is not None:\n        pipe.on_interest_end(task.cancel)\n", "only named rendering tasks are cancelled by shutdown")
+R.seed("C18.j", F_PIPE, "    pipe.on_interest_end(task.cancel)\n", "    pipe.on_interest_end(lambda: None)\n", "the interest-end callback no longer cancels the handler")
+
+# C18.b: removal through a draining generator is the same loop
+R.seed("C18.b", F_TM, "        while self.outgoing_requests:\n            key = next(iter(self.outgoing_requests.keys()))\n            request = self.outgoing_requests.pop(key)\n            request.add_exception(error.LibraryShutdown())\n",
+       "        def taken(table):\n            if table:\n                yield table.pop(next(iter(table)))\n\n        for request in taken(self.outgoing_requests):\n            request.add_exception(error.LibraryShutdown())\n",
+       "a generator that hands out one entry only: the other pending requests hang")
 
 # C18.i: an entry that leaves a timer table takes its timer along
 R.seed("C18.i", F_MM, "                mid, old_handle = self._piggyback_opportunities.pop(key)\n                old_handle.cancel()\n", "                mid, old_handle = self._piggyback_opportunities.pop(key)\n                if mid:\n                    old_handle.cancel()\n", "truthiness of the legal message ID 0 decides whether the superseded empty-ACK timer is cancelled")
